@@ -286,7 +286,9 @@ fn case(rng: &mut Rng, idx: usize, which: u8) -> String {
     let nframes = rng.range(1, 4);
     let payloads: Vec<Vec<u8>> = (0..nframes)
         .map(|_| {
-            let len = rng.range(10, 120);
+            // mostly short frames; sometimes exactly the smallest / largest payload the example's
+            // deframer limits (10..1500 bytes including the checksum) allow
+            let len = if rng.chance(1, 8) { *rng.pick(&[8usize, 9, 1497, 1498]) } else { rng.range(10, 120) };
             match rng.below(3) {
                 0 => (0..len).map(|_| *rng.pick(&[0xffu8, 0x7e, 0x3f, 0x00])).collect(),
                 _ => (0..len).map(|_| rng.below(256) as u8).collect(),
